@@ -100,7 +100,8 @@ def run(tier, seed, replay=None):
     cov.update({
         "per_type_obligations": {"baseline": len(base), "discharged_now": len(set(base) & set(proved)), "lost": lost,
                                  "newly_discharged_not_in_baseline": sorted(set(proved) - set(base))},
-        "unproved": ["block types outside the baseline: " + ",".join(sorted(set(info["blocks"]) - set(proved))),
+        "unproved": ["write idempotence (put_idem: writing the written object again gives the same bytes) is NOT proved; it is checked on the model and on the implementation for every generated instance",
+                     "block types outside the round-trip baseline: " + ",".join(sorted(set(info["blocks"]) - set(proved))),
                      "the file-level pipeline (FinalizeData, Optimize, sort) is explored on the samples, not proved"],
         "evaluations": stats["block_instances"] + stats["sample_save3"],
         "distinct_nontrivial": stats["block_instances"] + stats["sample_save3"],
